@@ -23,12 +23,13 @@ RULE = ("histories over {load, convert collection, convert rule, init pipeline, 
         "; probe kinds incl. cased and plain string operators, regex, null; post-processing items that keep parsed templates (json, embed); per-rule detection contents"
         "; the user pipeline reads placeholder values from a file (filtered); history op: a second backend with backend options")
 RULE += '; round 4: registration histories of sigma.pipelines.base.Pipeline (decorated functions, inheriting classes): what a handle builds is independent of later registrations (Lean Model.Registry)'
+RULE += "; round 5: history op 'a backend of another text backend class is created and used'; probe with exists:false / cidr / startswith items"
 ASSUMPTIONS = [
     "fresh objects = a new pipeline from the same dict, a new backend instance of a new class object built from the same configuration, caches cleared",
     "observation through a finalize_query hook defined in the harness's backend subclass (state seen by the conversion) and a template post-processing item (state seen by the item)",
 ]
 OPS = ["load", "conv_coll_state", "conv_coll_plain", "conv_rule_state", "conv_rule_plain", "init", "share_init", "share_conv", "other_backend", "backend_option",
-       "parse_two_step", "validate",
+       "parse_two_step", "validate", "other_class",
        "fail_pipeline", "fail_placeholder", "fail_value", "fail_missing", "fail_noteq"]
 
 PIPE = {"name": "user", "priority": 10, "transformations": [
@@ -52,6 +53,8 @@ def rule_doc(kind, i=0):
     if kind == "casedprobe": d["detection"] = {"sel": {"fieldA|cased|contains": f"Ab{i}", "fieldB|cased|startswith": "Cd", "fieldC|cased|endswith": "Ef", "g": 1,
                                                        "fieldD|contains": f"mid{i}", "fieldE|startswith": "head", "fieldF|endswith": "tail", "fieldG|re": "x+y", "fieldH": None},
                                                "flt": {"h": f"x{i}"}, "condition": "sel and not flt"}
+    if kind == "existsprobe": d["detection"] = {"sel": {"fieldA": f"v{i}", "g": 1, "n|exists": False, "m|exists": True, "ip|cidr": "10.0.0.0/8", "s|startswith": "x"},
+                                                "flt": {"h": f"x{i}", "k|exists": False}, "condition": "sel and not flt"}
     if kind == "placeholder": d["detection"]["sel"]["fieldA|expand"] = "%nope%"; del d["detection"]["sel"]["fieldA"]
     if kind == "badvalue": d["detection"]["kw"] = [True]; d["detection"]["condition"] = "sel and kw"
     if kind == "missing": d["detection"]["condition"] = "sel and not nosuch"
@@ -59,10 +62,11 @@ def rule_doc(kind, i=0):
     return d
 
 
-def make_class(cased="none"):
+def make_class(cased="none", **over):
     from sigma.processing.pipeline import ProcessingPipeline
     cfg = {"prec": ["not", "and", "or"], "parenthesize": False, "orAsIn": False, "andAsIn": False, "inAllowWild": False, "notAsNotEq": True,
            "sw": True, "ew": True, "ct": True, "wm": False, "cased": cased, "explicitNotExists": False, "nativeCidr": True}
+    cfg.update(over)
     B = qsyntax.make_backend(cfg)
 
     def finalize_query_default(self, rule, query, index, state):
@@ -80,10 +84,12 @@ def gen_cases(tier, seed, gen, effort):
     cases = []
     for h in hists:
         for probe in ("convert", "convert_rule"):
-            for pk in ("plain", "state", "casedprobe"):
+            for pk in ("plain", "state", "casedprobe", "existsprobe"):
                 if len(h) > 2 and rnd.random() < 0.5:
                     continue
                 if pk == "casedprobe" and len(h) <= 2 and len(h) > 0 and rnd.random() < 0.5:
+                    continue
+                if pk == "existsprobe" and "other_class" not in h and rnd.random() < 0.7:
                     continue
                 cases.append({"history": list(h), "probe": probe, "probe_kind": pk})
     # registration histories of sigma.pipelines.base.Pipeline (decorated functions / inheriting classes): what a handle denotes
@@ -191,6 +197,9 @@ def run_history(case, fresh):
                     from sigma.validation import SigmaValidator
                     from sigma.validators.core import validators as _vs
                     SigmaValidator([v for n, v in sorted(_vs.items()) if "tag" not in n]).validate_rules(coll("state", "plain").rules)
+                elif op == "other_class":         # a backend of ANOTHER text backend class (other templates and class-level settings) is created and used
+                    other = make_class("all", explicitNotExists=True, notAsNotEq=False, sw=False, nativeCidr=False)
+                    other(new_pipe()).convert(coll("plain"))
                 elif op == "init": A.init_processing_pipeline()
                 elif op == "share_init": cls(P).init_processing_pipeline()
                 elif op == "share_conv": cls(P).convert(coll("state"))
